@@ -269,7 +269,7 @@ def case_op(op, dim, dxs):
                         nz += int(np.any(want != 0))
     else:
         raise KeyError(op)
-    if nz == 0:
+    if nz == 0 and not fails:
         from harness.interp import HarnessError
 
         raise HarnessError(f"C05 {tag}: vacuous (all expected values zero)")
